@@ -14,7 +14,7 @@ use serde_json::{json, Value};
 pub const META: Meta = Meta {
     id: "C07",
     level: "fault_enumeration",
-    rule: "Fault enumeration: range lengths 1..=8 (thorough 10) x every composition of the range into <= 4 (thorough 5) chunks x fault kind {early end, error, 1-3 extra bytes in chunk i, one extra chunk, an error after the last byte, none} x every chunk index x filler {none, Pending before the fault, empty chunk before the fault, Pending / empty 'tail' steps between the last byte and the end or after-the-end fault} x entity stream variants {contiguous chunks, two-segment chunks, size_hint that counts data chunks, errors that repeat on every further poll} x response shape {200, single 206, multipart with 2-3 parts and the fault in each part}; plus proptest over longer ranges, up to 8 parts and faults in several parts. Oracle: against the fault-free twin of the same case: delivered bytes are a prefix of the twin's body and never exceed the announced length; short/failing stream => first terminal event is an error (the injected one for entity errors), never a clean end; over-long stream => nothing beyond the announced length and an error when polled past it; fault-free with fillers => clean end with exact bytes. Non-trivial = the injected fault was actually reached by the drain; distinct by fingerprint of the case.",
+    rule: "Fault enumeration: range lengths 1..=8 (thorough 10) x every composition of the range into <= 4 (thorough 5) chunks x fault kind {early end, error, 1-3 extra bytes in chunk i, one extra chunk, an error after the last byte, none} x every chunk index x filler {none, Pending before the fault, empty chunk before the fault, Pending / empty 'tail' steps between the last byte and the end or after-the-end fault} x entity stream variants {contiguous chunks, two-segment chunks, size_hint that counts data chunks, errors that repeat on every further poll} x response shape {200, single 206, multipart with 2-3 parts and the fault in each part} x {small entity, entity of 2^64-1 bytes with the faulty range running to its very end in first- and suffix form}; plus proptest over longer ranges, up to 8 parts and faults in several parts. Oracle: against the fault-free twin of the same case: delivered bytes are a prefix of the twin's body and never exceed the announced length; short/failing stream => first terminal event is an error (the injected one for entity errors), never a clean end; over-long stream => nothing beyond the announced length and an error when polled past it; fault-free with fillers => clean end with exact bytes. Non-trivial = the injected fault was actually reached by the drain; distinct by fingerprint of the case.",
     assumptions: &[
         "harness entity streams are fused after their end or error",
         "the consumer polls until a terminal event (a consumer that stops at Content-Length never sees an extra chunk)",
@@ -50,6 +50,10 @@ pub struct FCase {
     /// after an injected error the entity stream keeps failing instead of ending
     #[serde(default)]
     pub unfused_errors: bool,
+    /// 0: a small entity. 1-2: an entity of 2^64-1 bytes whose last requested range runs to its very
+    /// end (`first-` / `-suffix` form), the other ranges near its start. Not for `Shape::Full`.
+    #[serde(default)]
+    pub huge: u8,
 }
 
 impl FCase {
@@ -73,7 +77,15 @@ impl FCase {
             }
             plan.push(PStep::Chunk(*c));
         }
+        let to_end = |l: u64| if self.huge == 2 { format!("-{len}") } else { format!("{}-", l - len) };
         let (l, req) = match self.shape {
+            Shape::Single if self.huge > 0 => (u64::MAX, ReqSpec::get().with("range", format!("bytes={}", to_end(u64::MAX)))),
+            Shape::Multi(n) if self.huge > 0 => {
+                let stride = len + 90;
+                let mut v: Vec<String> = (0..n as u64 - 1).map(|j| format!("{}-{}", 7 + j * stride, 7 + j * stride + len - 1)).collect();
+                v.push(to_end(u64::MAX));
+                (u64::MAX, ReqSpec::get().with("range", format!("bytes={}", v.join(","))))
+            }
             Shape::Full => (len, ReqSpec::get()),
             Shape::Single => (len + 5, ReqSpec::get().with("range", format!("bytes=3-{}", len + 2))),
             Shape::Multi(n) => {
@@ -367,17 +379,25 @@ pub fn enumerate(len: u32, max_chunks: usize, extra_polls: &[usize], mut f: impl
                                 if unfused_errors && !matches!(fault, Some(Fault { kind: FaultKind::Error, .. })) {
                                     continue;
                                 }
-                                f(FCase {
-                                    shape,
-                                    chunks: chunks.clone(),
-                                    filler,
-                                    faults: fault.into_iter().collect(),
-                                    tail: tail.clone(),
-                                    extra_polls: extra,
-                                    segments,
-                                    counting_hint,
-                                    unfused_errors,
-                                });
+                                // the faulty range also as the to-the-end range of a 2^64-1 byte entity
+                                let huges: &[u8] = if shape == Shape::Full || segments == 2 || counting_hint || unfused_errors { &[0] } else { &[0, 1, 2] };
+                                for &huge in huges {
+                                    if huge > 0 && matches!(shape, Shape::Multi(n) if call + 1 != n as u32) {
+                                        continue; // only the last part runs to the end
+                                    }
+                                    f(FCase {
+                                        shape,
+                                        chunks: chunks.clone(),
+                                        filler,
+                                        faults: fault.into_iter().collect(),
+                                        tail: tail.clone(),
+                                        extra_polls: extra,
+                                        segments,
+                                        counting_hint,
+                                        unfused_errors,
+                                        huge,
+                                    });
+                                }
                             }
                         }
                     }
@@ -401,8 +421,9 @@ pub fn random_strategy() -> BoxedStrategy<FCase> {
         0u8..4,
         proptest::bool::weighted(0.3),
         proptest::bool::weighted(0.3),
+        prop_oneof![3 => Just(0u8), 1 => Just(1u8), 1 => Just(2u8)],
     )
-        .prop_map(|(chunks, shape, filler, faults, extra_polls, tail, segments, counting_hint, unfused_errors)| {
+        .prop_map(|(chunks, shape, filler, faults, extra_polls, tail, segments, counting_hint, unfused_errors, huge)| {
             let parts = match shape {
                 Shape::Multi(n) => n as u32,
                 _ => 1,
@@ -429,6 +450,7 @@ pub fn random_strategy() -> BoxedStrategy<FCase> {
                 counting_hint,
                 unfused_errors,
                 extra_polls,
+                huge: if shape == Shape::Full { 0 } else { huge },
             }
         })
         .boxed()
